@@ -83,6 +83,31 @@ pub fn run(case: &Sx) -> Sx {
                 s("obj"), s(""), CharacteristicType::Value, 0, s("rl"), 0.0, conv, lo, hi,
             ));
         }
+        7 | 8 | 9 => {
+            // the other characteristic types whose values are described by FNC_VALUES
+            blockname = "CHARACTERISTIC";
+            rl.fnc_values = Some(FncValues::new(1, dtype, IndexMode::RowDir, AddrType::Direct));
+            let ctype = match okind { 7 => CharacteristicType::Ascii, 8 => CharacteristicType::ValBlk, _ => CharacteristicType::Curve };
+            let mut ch = Characteristic::new(s("obj"), s(""), ctype, 0, s("rl"), 0.0, conv, lo, hi);
+            if okind == 7 || okind == 8 {
+                ch.number = Some(Number::new(4));
+            } else {
+                let mut fix = AxisDescr::new(AxisDescrAttribute::FixAxis, s("NO_INPUT_QUANTITY"), s("NO_COMPU_METHOD"), 2, 0.0, 1.0);
+                fix.fix_axis_par_dist = Some(FixAxisParDist::new(0, 1, 2));
+                ch.axis_descr.push(fix);
+            }
+            m.characteristic.push(ch);
+        }
+        10 | 11 => {
+            blockname = "TYPEDEF_CHARACTERISTIC";
+            rl.fnc_values = Some(FncValues::new(1, dtype, IndexMode::RowDir, AddrType::Direct));
+            let ctype = if okind == 10 { CharacteristicType::Value } else { CharacteristicType::Ascii };
+            let mut tc = TypedefCharacteristic::new(s("obj"), s(""), ctype, s("rl"), 0.0, conv, lo, hi);
+            if okind == 11 {
+                tc.number = Some(Number::new(4));
+            }
+            m.typedef_characteristic.push(tc);
+        }
         2 => {
             blockname = "AXIS_PTS";
             rl.axis_pts_x = Some(AxisPtsDim::new(1, dtype, IndexOrder::IndexIncr, AddrType::Direct));
